@@ -9,6 +9,9 @@ FIX_COMMITS = ["6e0caa7", "2840cea", "9555ff6", "6248959", "f561aed", "90dd435",
 
 # id -> (technique, level text, level note, design ref)
 CHECKS = {
+ "C01": ("deviation-bounded exhaustive exploration of the signer's environment answers (forced sampler outcomes at chosen iterations, <= 2 deviations; all (i,j) forced retries of both rejection loops) plus exhaustive call-level histories/interleavings over messages, variants, shared keys and threads on real OS threads",
+         "Stateless exploration of the real sign under a role-aware RNG environment: every set of <= 2 deviations from an honest ChaCha stream over 6 positions x 8 forced answers, all forced-retry pairs with i+j <= 3, every (key, message, stream) cell, all depth-2 (thorough 3) same-thread histories over message lengths x variants, all 30 interleavings of three thread programs sharing keys; each signature checked by the real verify AND the reference Algorithm 16. The default run is replayed and must repeat byte for byte.",
+         "Seeds/messages/streams outside the alphabet are not covered. Intra-call preemption only through a free-running (non-exhaustive, labelled) part and the absence of shared mutable state (E5).", "3/C01"),
  "C02": ("exhaustive enumeration of engineered (msg, signature, public key) triples with prescribed squared norm (bound-1/bound/bound+1/far/wrap sizes), centred-range edge entries and malformed encodings, each through the real verify and a schoolbook Algorithm 16 (plus PQClean)",
          "Bounded exhaustive over a product alphabet of triples aimed at the glue of verify (centred lift, bound constant, comparison operator, accumulator width, decoder verdict), each compared with the reference Algorithm 16; components (hash, decoder, NTT pipeline, Z_q gates) are decided for all inputs by C14/C07/C11/C12.",
          "Compositional: relies on C07, C11, C12, C14 for the components. Reference verify is schoolbook; PQClean's verifier is a third source on the common domain.", "3/C02"),
@@ -33,6 +36,9 @@ CHECKS = {
  "C09": ("exhaustive exploration of all per-iteration answer sequences (depth 2, thorough 3) of the real sampler under a role-aware byte environment against the specification's SamplerZ; threshold extraction by binary search on the real decision functions and exact assembly of the output law (probabilistic model checking)",
          "Building blocks on generating sets (all RCDT thresholds from both sides, all u with <= 2 non-zero bytes, ApproxExp grid bit-exact, BerExp byte patterns at every first-difference position); every answer sequence up to the depth bound replayed against the reference; the exact output law from extracted thresholds within 2^-40 total variation of the ideal Gaussian on a (r, sigma') grid.",
          "Uniformity of the random bytes is the premise. (mu, sigma') are gridded. FP evaluation order of x follows the reference C code; comparison bytes keep a 2^16 margin.", "3/C09"),
+ "C10": ("per-execution trace conformance of ffSampling against a dense nearest-plane reference (exhaustive over all sampler-outcome sequences at n = 2 and 4; keys x messages x forced-answer sets at production size) plus tree-vs-Gram-Schmidt equality",
+         "What enumeration can decide for a distributional property: invariants I1 (tree leaves = sigma/||b~_k|| for generated AND reloaded keys), I2 (every one of the 2n sampler calls of every signing attempt is centred at the dense nearest-plane centre, uses its leaf as width, returns the specification's SamplerZ output on the logged bytes, and the emitted vector is target - sum z_k b_k), I3 (norm bound). Together with C09 these imply the spherical Gaussian by the Klein/GPV theorem.",
+         "The implication I1-I3 + C09 => distribution is a textbook theorem, not checked. The literal moment statement is not tested (sampling is outside this family).", "3/C10"),
  "C11": ("complete enumeration of tables and of all basis vectors / basis pairs for every n <= 1024 (generating set of a linear / bilinear circuit)",
          "Complete: 2059 table equalities; ntt(X^i)[k] = omega_k^i for all i,k and every n; inverse round trip; all basis pairs (thorough: all 1.4M pairs) give +-X^(i+j). Linearity of the data-independent butterfly circuit extends this to all q^n inputs.",
          "Trusts: exact Z_q gates (C12, exhaustive); absence of data-dependent branches in the butterflies (read from the code; additionally probed on two-term and dense vectors against the schoolbook product).", "3/C11"),
@@ -48,6 +54,9 @@ CHECKS = {
  "C15": ("exhaustive enumeration of histories around a keygen call: fresh child process after every prefix (depth 1, thorough 2) of other operations incl. the other variant, same/other/fresh thread, call-level interleavings of two thread programs; all 256 single-bit seed flips",
          "History model checking with a differential oracle (state reached from the initial state vs state reached from elsewhere): the key bytes of keygen(seed) in every explored history equal those of a fresh process; every seed bit flip changes both secret and public key.",
          "Seeds outside the enumerated ones not covered; the target seeds include one whose key has a large f/g coefficient (vacuity guard). Call-level interleavings only.", "3/C15"),
+ "C16": ("enumeration of seeds x messages x four interop directions against the vendored reference implementation with deterministic randomness, including signer randomness searched so that HashToPoint meets its rejection threshold",
+         "Bounded exhaustive differential check: reference signs with our keys, we verify and it verifies under our key bytes; our signatures (reframed) verify in the reference; reference keys import and re-encode byte-identically, cross-signing both ways.",
+         "Reference = PQClean clean implementation vendored from the cargo registry, linked with our deterministic randombytes. Bounded seeds/messages.", "3/C16"),
  "C17": ("exhaustive enumeration of a multiplier alphabet k applied to real (ntru_gen) and structured (f,g,F0,G0) for every n in {2..1024}, both reductions run on each input and compared, exact integer oracles",
          "Bounded exhaustive: for each base quadruple every k in the alphabet; oracles: i32 and big-integer versions identical, f*G'-g*F' preserved exactly (i128), idempotence, exact multiple-of-(f,g) certificate; degenerate inputs (0,0), (1,0), already reduced.",
          "Inputs outside the alphabet are not covered; coefficients are kept below 2^24 as the property states.", "3/C17"),
